@@ -234,27 +234,29 @@ impl DateFilter for ds::YearRange {
             return None; // TODO
         }
 
-        let next_year = {
+        // The next year may not fit in a `u16` when the step is huge.
+        let next_year: u32 = {
             if *range.end() < curr_year {
                 // 1. time exceeded the range, the state won't ever change
                 return Some(DATE_END.date());
             } else if curr_year < *range.start() {
                 // 2. time didn't reach the range yet
-                *range.start()
+                (*range.start()).into()
             } else if self.step == 1 {
                 // 3. time is in the range and step is naive
-                *range.end() + 1
+                u32::from(*range.end()) + 1
             } else if (curr_year - range.start()) % self.step == 0 {
                 // 4. time matches the range with step >= 2
-                curr_year + 1
+                u32::from(curr_year) + 1
             } else {
                 // 5. time is in the range but doesn't match the step
-                let round_up = |x: u16, d: u16| d * x.div_ceil(d); // get the first multiple of `d` greater than `x`.
-                range.start() + round_up(curr_year - range.start(), self.step)
+                let round_up = |x: u32, d: u32| d * x.div_ceil(d); // get the first multiple of `d` greater than `x`.
+                u32::from(*range.start())
+                    + round_up((curr_year - range.start()).into(), self.step.into())
             }
         };
 
-        Some(NaiveDate::from_ymd_opt(next_year.into(), 1, 1).unwrap_or(DATE_END.date()))
+        Some(NaiveDate::from_ymd_opt(next_year as _, 1, 1).unwrap_or(DATE_END.date()))
     }
 }
 
